@@ -337,8 +337,17 @@ func c15RunCell(c c15Cell, s *gen.Stream, validQuote bool) (key, oracle, detail 
 			q = f
 		}
 		copy(d.data, q)
-		if c.outLen == 0xAAAA { // marker: exact length of the embedded quote
+		switch c.outLen {
+		case 0xAAAA: // marker: exact length of the embedded quote
 			d.outLen = uint32(len(q))
+			c.outLen = d.outLen
+		case 0xAAAB: // marker: the device reports a length in the middle of the quote (the first OutLen bytes are the answer)
+			d.outLen = uint32(636 + (len(q)-636)/2)
+			c.outLen = d.outLen
+		case 0xAAAC: // marker: header, body and the size field, nothing of the signed data
+			d.outLen, c.outLen = 636, 636
+		case 0xAAAD: // marker: one byte short of the quote
+			d.outLen = uint32(len(q) - 1)
 			c.outLen = d.outLen
 		}
 	}
@@ -469,7 +478,7 @@ func (p *reusingProvider) GetRawQuote(rd [64]byte) ([]uint8, error) {
 func c15Cells() []c15Cell {
 	results := []uintptr{0, 1, 7, 8, 9, 10, 0xdead}
 	statuses := []uint64{0, labi.GetQuoteInFlight, labi.GetQuoteError, labi.GetQuoteServiceUnavailable, 5, 1 << 63 >> 1}
-	outLens := []uint32{0, 1, 0xAAAA, 5000, labi.ReqBufSize - 1, labi.ReqBufSize, labi.ReqBufSize + 1, 1 << 31, 1<<32 - 1}
+	outLens := []uint32{0, 1, 0xAAAA, 0xAAAB, 0xAAAC, 0xAAAD, 5000, labi.ReqBufSize - 1, labi.ReqBufSize, labi.ReqBufSize + 1, 1 << 31, 1<<32 - 1}
 	var cells []c15Cell
 	for ri := -1; ri < len(results); ri++ {
 		for qi := -1; qi < len(results); qi++ {
